@@ -23,7 +23,7 @@ from harness import common
 from harness.common import clist, cz
 
 REQ = ["OV.Index.NumpySpec", "OV.Index.OnnxSlice", "OV.Index.ConverterIdx", "OV.Index.EagerIdx", "OV.Index.Corr",
-       "OV.Index.AdvSpec", "OV.Index.AdvCorr"]
+       "OV.Index.AdvSpec", "OV.Index.AdvCorr", "OV.Index.EagerFix"]
 KINDS = ["int", ":", "slice", "t0", "t1", "t2"]
 
 
@@ -175,7 +175,8 @@ def classify(idx):
     return "no-tensor-index"
 
 
-EVALS = ["anp_agrees", "agraph_agrees", "askel_agrees", "aeager_agrees", "aeskel_agrees", "a_good", "model_conv_equal"]
+EVALS = ["anp_agrees", "agraph_agrees", "askel_agrees", "aeager_agrees", "aeskel_agrees", "a_good", "model_conv_equal",
+         "aeager_agrees_c true", "aeskel_agrees_c true"]
 
 
 def run_stream(ctx, c11, runner, cases, state):
@@ -198,7 +199,7 @@ def run_stream(ctx, c11, runner, cases, state):
     shard = 250
     for i in range(0, len(lits), shard):
         body = f"Definition cases : list acase := {clist(lits[i:i + shard])}.\n"
-        body += "".join(f"Eval vm_compute in (afailing {e} 0 cases).\n" for e in EVALS)
+        body += "".join(f"Eval vm_compute in (afailing ({e}) 0 cases).\n" for e in EVALS)
         bodies.append(body)
         index.append(metas[i:i + shard])
     res = c11._coq_shards(ctx, bodies, req=REQ)
@@ -227,6 +228,11 @@ def run(ctx, c11, runner):
     cases = list(gen_adv_forms(ctx.rng, ctx.tier == "thorough"))
     metas, bad = run_stream(ctx, c11, runner, cases, state)
     n = state["n"]
+    # which variant of Tensor.__getitem__ is this: without / with the negative-step start clamp (EagerFix.v)
+    eager_variant = "as-read"
+    if (bad["aeager_agrees"] or bad["aeskel_agrees"]) and not (bad["aeager_agrees_c true"] or bad["aeskel_agrees_c true"]):
+        eager_variant = "negative-start-clamp"
+        bad["aeager_agrees"], bad["aeskel_agrees"] = bad["aeager_agrees_c true"], bad["aeskel_agrees_c true"]
     names = {"anp_agrees": "NumPy = AdvSpec.np_nest (broadcast block placement, every form)",
              "agraph_agrees": "graph result on onnxruntime = AdvSpec.conv_nest",
              "askel_agrees": "emitted Slice/Squeeze/Gather operands, Gather order and index shapes = conv_ops true / conv_gshapes",
@@ -258,10 +264,10 @@ def run(ctx, c11, runner):
             outcomes[(front, "ok" if o[0] == "ok" else "error", "np-ok" if o_np[0] == "ok" else "np-error")] += 1
             if o[0] != "ok" or (o_np[0] == "ok" and c11.same(o, o_np)):
                 continue
-            if c11._neg_start_hazard(shape, idx):
-                cls = "negative-step-start-below-minus-dim"
-            elif id(r) in good_bad:
+            if id(r) in good_bad:
                 cls = classify(idx)
+            elif c11._neg_start_hazard(shape, idx):
+                cls = "negative-step-start-below-minus-dim"
             else:
                 cls = "unclassified-good-form:" + ",".join(str(py_kind(c)) for c in idx)
             if id(r) in unexplained[front]:
@@ -300,7 +306,7 @@ def run(ctx, c11, runner):
                    f"(>= 40%); {n_bad_form} cases of bad forms, the models differ on {n_model_diff}", ok and n_bad_form > 50)
     if not (ok and n_bad_form > 50):
         ctx.tie_broken("harness", "generator-degenerate", "adv-forms stream lost its good or its bad forms")
-    return {"cases": n, "bad_form_cases": n_bad_form, "model_predicts_different_tensor": n_model_diff,
+    return {"cases": n, "eager_variant": eager_variant, "bad_form_cases": n_bad_form, "model_predicts_different_tensor": n_model_diff,
             "good_form_cases": good_cases, "good_form_graph_equals_numpy": good_equal, "refused": state["refused"],
             "outcomes": {f"{a}:{b}:{c}": v for (a, b, c), v in sorted(outcomes.items())},
             "different_tensor_by_class": {f"{a}:{b}": v for (a, b), v in sorted(diff.items())}}
